@@ -8,7 +8,7 @@ Sink, its own spike-profile Source, and an operator entity that calls `start()` 
 as /repo/examples/performance/auto_scaler.py and /repo/examples/deployment/*_deployment.py do."""
 from __future__ import annotations
 
-from hv.scenarios.base import T, dataclass_stats, seed_all, stats_of
+from hv.scenarios.base import T, dataclass_stats, dur_ms, seed_all, stats_of
 
 NAME = "deployment"
 MODEL = None
@@ -20,58 +20,97 @@ PARTS = ["autoscale", "canary", "rolling"]
 
 
 def _server_cfg(rng):
-    return {"conc": rng.randint(1, 2), "svc_ms": rng.randint(5, 40), "exp": rng.random() < 0.5,
-            "qcap": rng.choice([None, 2, 5, 20])}
+    return {"conc": rng.randint(1, 2), "svc_ms": dur_ms(rng, 2, 40), "exp": rng.random() < 0.5,
+            "qcap": rng.choice([None, 0, 2, 5, 20])}
 
 
 def _traffic(rng):
     return {"base": rng.choice([10, 20, 30]), "spike": rng.choice([80, 150, 300]),
-            "from_ms": rng.randint(300, 900), "len_ms": rng.randint(400, 1200)}
+            "from_ms": rng.randint(300, 900), "len_ms": rng.randint(400, 1200),
+            # sustained overload for the whole run instead of a spike window
+            "sustained": rng.random() < 0.15}
+
+
+def _steps(rng):
+    """StepScaling table: (utilisation lower bound, adjustment), highest bound first"""
+    return rng.choice([
+        [[0.9, 2], [0.5, 1], [0.2, 0], [0.0, -1]],
+        [[0.8, 3], [0.0, 0]],
+        [[0.5, 1], [0.1, -2]],
+        [[0.0, 1]],
+    ])
 
 
 def gen_cfg(rng):
     k = rng.randint(1, 3)
     parts = sorted(rng.sample(PARTS, k))
-    n_stages = rng.randint(2, 4)
+    n_stages = rng.randint(1, 4)
+    end = rng.choice([3.0, 4.0, 5.0]) if rng.random() < 0.85 else rng.choice([8.0, 10.0])
+    end_ms = int(end * 1000)
     return {
-        "end": rng.choice([3.0, 4.0, 5.0]),
+        "end": end,
         "parts": parts,
         "poisson": rng.random() < 0.6,
         "autoscale": {
             "policy": rng.choice(["target", "step", "queue", "default"]),
-            "target": rng.choice([0.3, 0.6, 0.9]),
-            "q_out": rng.choice([2, 5, 10]), "q_in": rng.choice([0, 1]),
-            "min": rng.randint(1, 2), "max": rng.randint(3, 8), "initial": rng.randint(1, 3),
-            "eval_ms": rng.choice([20, 50, 100, 200]),
-            "out_cd_ms": rng.choice([0, 50, 300]), "in_cd_ms": rng.choice([0, 100, 500]),
+            "target": rng.choice([0.05, 0.3, 0.6, 0.9, 1.0]),
+            "steps": _steps(rng),
+            "q_out": rng.choice([1, 2, 5, 10]), "q_in": rng.choice([0, 1]),
+            "min": rng.randint(1, 2), "max": rng.randint(2, 8), "initial": rng.randint(1, 3),
+            "eval_ms": dur_ms(rng, 10, 400) if rng.random() < 0.8 else dur_ms(rng, 1000, 1500),
+            "out_cd_ms": dur_ms(rng, 10, 1200, zero=True), "in_cd_ms": dur_ms(rng, 10, 1500, zero=True),
             "lb": rng.choice(["rr", "least", "wrr"]),
             "server": _server_cfg(rng), "traffic": _traffic(rng),
-            "stop_at_ms": rng.choice([None, None, 2500]),
+            "stop_at_ms": rng.choice([None, None, dur_ms(rng, 1000, end_ms - 500)]),
+            "restart_at_ms": rng.choice([None, None, end_ms - 400]),
         },
         "canary": {
-            "stages": [[rng.choice([1, 5, 25, 50, 100]), rng.choice([100, 200, 400])] for _ in range(n_stages)],
-            "eval_ms": rng.choice([50, 100, 150]),
+            # evaluation periods: shorter than / equal to / a multiple of / NOT a multiple of the evaluation interval,
+            # with values that lose a nanosecond in the seconds -> ns conversion (1.001 s, 1.003 s, 2.05 s ...)
+            "stages": [[rng.choice([0, 1, 5, 25, 50, 100]),
+                        dur_ms(rng, 20, 600) if rng.random() < 0.5 else dur_ms(rng, 1000, 1300)]
+                       for _ in range(n_stages)],
+            "eval_ms": dur_ms(rng, 20, 400),
             "evaluator": rng.choice(["error", "latency", "default"]),
+            "max_err": rng.choice([0.0, 0.05, 0.5, 1.0]), "max_lat_ms": dur_ms(rng, 5, 600),
+            "thr_mult": rng.choice([1.0, 1.5, 2.0, 10.0]),
             "canary_kind": rng.choice(["good", "good", "slow", "rejecting"]),
             "lb": rng.choice(["wrr", "wrr", "rr"]),
             "n_base": rng.randint(1, 3),
-            "deploy_ms": rng.randint(200, 800),
+            "deploy_ms": dur_ms(rng, 100, 1200),
             "redeploy": rng.random() < 0.3,
+            "default_stages": rng.random() < 0.05,       # the constructor's default stage list (30 s periods)
             "server": _server_cfg(rng), "traffic": _traffic(rng),
         },
         "rolling": {
-            "batch": rng.randint(1, 3),
-            "hc_ms": rng.choice([20, 50, 100, 200]),
+            "batch": rng.randint(1, 4),
+            "hc_ms": dur_ms(rng, 10, 400) if rng.random() < 0.8 else dur_ms(rng, 1000, 1200),
             "healthy_thr": rng.randint(1, 3),
             "max_fail": rng.randint(0, 3),
             "v2_kind": rng.choice(["good", "good", "slow", "mixed"]),
             "n_base": rng.randint(1, 4),
-            "deploy_ms": rng.randint(200, 800),
+            "deploy_ms": dur_ms(rng, 100, 1200),
             "redeploy": rng.random() < 0.3,
             "lb": rng.choice(["rr", "least"]),
             "server": _server_cfg(rng), "traffic": _traffic(rng),
         },
     }
+
+
+def gen_cfg_wide(rng):
+    """maximum-coverage configuration: all three controllers, canary stages whose periods are not multiples of the
+    evaluation interval and lose a nanosecond in the seconds -> ns conversion"""
+    from hv.scenarios.base import LOSSY_MS
+
+    cfg = gen_cfg(rng)
+    cfg["parts"] = list(PARTS)
+    cfg["end"] = max(cfg["end"], 5.0)
+    c = cfg["canary"]
+    c["default_stages"] = False
+    c["canary_kind"] = "good"
+    c["stages"] = [[rng.choice([5, 25, 50]), rng.choice([m for m in LOSSY_MS if m < 1300])] for _ in range(2)]
+    c["deploy_ms"] = rng.randint(100, 400)
+    return cfg
 
 
 def build(cfg, seed):
@@ -129,8 +168,11 @@ def build(cfg, seed):
         gate = Gate(name + "-gate", lb, tc)
         entities.append(gate)
         sources.append(mk(rate=tc["base"], target=lb, event_type="Request", name=name, stop_after=stop))
+        if tc.get("sustained"):
+            gate.lo, gate.hi = 0, int(stop * 1e9)
         sources.append(mk(rate=tc["spike"], target=gate, event_type="Request", name=name + "-spike",
-                          stop_after=min(stop, (tc["from_ms"] + tc["len_ms"]) / 1000.0 + 0.05)))
+                          stop_after=stop if tc.get("sustained")
+                          else min(stop, (tc["from_ms"] + tc["len_ms"]) / 1000.0 + 0.05)))
         obs[gate.name] = lambda: gate.passed
 
     class Operator(Entity):
@@ -175,7 +217,8 @@ def build(cfg, seed):
         initial = [mk_server(f"web-{i}", a["server"]) for i in range(a["initial"])]
         lb = mk_lb("lb-as", a["lb"], initial)
         policy = {"target": lambda: TargetUtilization(target=a["target"]),
-                  "step": lambda: StepScaling([(0.9, 2), (0.5, 1), (0.2, 0), (0.0, -1)]),
+                  "step": lambda: StepScaling([(float(u), int(d)) for u, d in
+                                               a.get("steps", [[0.9, 2], [0.5, 1], [0.2, 0], [0.0, -1]])]),
                   "queue": lambda: QueueDepthScaling(scale_out_threshold=a["q_out"], scale_in_threshold=a["q_in"]),
                   "default": lambda: None}[a["policy"]]()
         scaler = AutoScaler("scaler", load_balancer=lb, server_factory=factory, policy=policy,
@@ -187,6 +230,8 @@ def build(cfg, seed):
         at(0, "scaler.start", lambda: [scaler.start()])
         if a["stop_at_ms"] is not None:
             at(a["stop_at_ms"], "scaler.stop", lambda: scaler.stop())
+            if a.get("restart_at_ms") is not None and a["restart_at_ms"] > a["stop_at_ms"]:
+                at(a["restart_at_ms"], "scaler.restart", lambda: [scaler.start()])
         obs["scaler"] = stats_of(scaler)
         obs["scaler.x"] = lambda: {"count": scaler.current_count, "running": scaler.is_running,
                                    "history": [[h.time.nanoseconds, h.action, h.from_count, h.to_count, h.reason]
@@ -213,12 +258,14 @@ def build(cfg, seed):
 
         base = [mk_server(f"baseline-{i}", c["server"]) for i in range(c["n_base"])]
         lbc = mk_lb("lb-canary", c["lb"], base)
-        evaluator = {"error": lambda: ErrorRateEvaluator(max_error_rate=0.05, threshold_multiplier=2.0),
-                     "latency": lambda: LatencyEvaluator(max_latency=0.5, threshold_multiplier=1.5),
+        evaluator = {"error": lambda: ErrorRateEvaluator(max_error_rate=c.get("max_err", 0.05),
+                                                         threshold_multiplier=c.get("thr_mult", 2.0)),
+                     "latency": lambda: LatencyEvaluator(max_latency=c.get("max_lat_ms", 500) / 1000.0,
+                                                         threshold_multiplier=c.get("thr_mult", 1.5)),
                      "default": lambda: None}[c["evaluator"]]()
-        canary = CanaryDeployer("canary", load_balancer=lbc, server_factory=canary_factory,
-                                stages=[CanaryStage(traffic_percentage=p / 100.0, evaluation_period=per / 1000.0)
-                                        for p, per in c["stages"]],
+        stages = None if c.get("default_stages") else [
+            CanaryStage(traffic_percentage=p / 100.0, evaluation_period=per / 1000.0) for p, per in c["stages"]]
+        canary = CanaryDeployer("canary", load_balancer=lbc, server_factory=canary_factory, stages=stages,
                                 metric_evaluator=evaluator, evaluation_interval=c["eval_ms"] / 1000.0)
         entities += [lbc, canary, *base]
         traffic("src-canary", lbc, c["traffic"])
